@@ -46,7 +46,9 @@ A = 'module:vp_nonexistent_a'
 B = 'env:VP_UNSET_B==1'
 MET = 'env:VP_MET==1'
 DIRS = [('SKIP', True), ('SKIP', False), ('REQ', True, MET), ('REQ', False, MET), ('REQ', True, A),
-        ('REQ', False, A), ('REQ', True, B), ('REQ', False, B)]
+        ('REQ', False, A), ('REQ', True, B), ('REQ', False, B),
+        # one REQUIRES directive with two conditions, the satisfied one written first / last
+        ('REQ', True, MET + ', ' + A), ('REQ', False, MET + ', ' + A), ('REQ', True, B + ', ' + MET)]
 INLINE_SHAPES = ['one', 'multi_first', 'multi_last', 'compound', 'deco', 'want', 'decoclass', 'decoclass_new', 'deco_new']
 PLAIN_SHAPES = ['one', 'multi', 'want', 'string', 'deco', 'string_ml', 'decoclass', 'decoclass_new', 'deco_new']
 DEFAULTS = ['none', 'skip_config', 'skip_cli']
@@ -123,16 +125,20 @@ def model(seq, default_skip=False):
             for d in ev[1]:
                 if d[0] == 'SKIP':
                     skip = d[1]
-                elif d[2] != MET:
-                    (req.add if d[1] else req.discard)(d[2])
+                else:
+                    for cond in d[2].split(', '):
+                        if cond != MET:
+                            (req.add if d[1] else req.discard)(cond)
         else:
             s2, r2 = skip, set(req)
             if ev[0] == 'inline':
                 for d in ev[1]:
                     if d[0] == 'SKIP':
                         s2 = d[1]
-                    elif d[2] != MET:
-                        (r2.add if d[1] else r2.discard)(d[2])
+                    else:
+                        for cond in d[2].split(', '):
+                            if cond != MET:
+                                (r2.add if d[1] else r2.discard)(cond)
             if not s2 and not r2:
                 ran.append(k)
     return ran
@@ -298,8 +304,10 @@ class UnitModel(object):
         for d in dlist:
             if d[0] == 'SKIP':
                 s2 = d[1]
-            elif d[2] != MET:
-                (r2.add if d[1] else r2.discard)(d[2])
+            else:
+                for cond in d[2].split(', '):
+                    if cond != MET:
+                        (r2.add if d[1] else r2.discard)(cond)
         if not inline:
             self.skip, self.req = s2, set(r2)
         self.eff = (s2, r2)
